@@ -140,6 +140,9 @@ def run(tier, seed, replay=None):
     else:
         singles = strings_upto(ALPHA, 1)
         shards = [(ALPHA, singles, 0)] + [(ALPHA, [a + b], depth - 2) for a in ALPHA for b in ALPHA]
+    # runs of slashes in front (the optional prefix is exactly `//`): every continuation up to 3 more symbols (seed C20/m consumed the prefix twice:
+    # `////lib:build` was accepted; the shortest such string has 6 symbols, beyond the quick tier's exhaustive length)
+    shards.append((ALPHA, ["//", "///", "////", "/////", "//////"], 3 if tier == "quick" else 4))
     # non-ASCII letters, digits and look-alikes (outside the documented alphabet: must all be rejected)
     shards.append((ALPHA2, [""], 4 if tier == "quick" else 5))
 
@@ -385,7 +388,7 @@ def identifiers_on_the_command_line(chk, tier):
     pads = ["\n", " ", "\t", "\r", "\x0b", "\x0c", "\x1c", "\x85", "\xa0", "\u2003"]
     cands = ["//:ok", ":ok", "//p:t", "p:t"]
     cands += ["//:ok" + c for c in pads[: (4 if tier == "quick" else len(pads))]] + [c + "//:ok" for c in pads[: (3 if tier == "quick" else len(pads))]]
-    cands += ["//p:t" + pads[0], " p:t", "//p:t ", "//:ok\n\n", "//:o k", "//:", "ok", "//p/:t", "//p//:t", "", " ", "//", ":"]
+    cands += ["//p:t" + pads[0], " p:t", "//p:t ", "//:ok\n\n", "//:o k", "//:", "ok", "//p/:t", "//p//:t", "", " ", "//", ":", "////:ok", "////p:t", "///p:t", "/p:t"]
     for k, s in enumerate(cands):
         want = doc_ident(s, False) is not None
         arch = "arch-%d.tar.gz" % k
